@@ -203,11 +203,66 @@ theorem agile_segments_partition (N : Nat) :
     unfold decryptPackageSegs
     rw [if_pos hL]
 
+/-- *documents protected with agile encryption decrypt to valid packages* (data flow, full
+strength): for every CBC cipher that is a length-preserving bijection on block-aligned messages for
+each IV index, and every plaintext, `decryptPackage` — segment loop, zero padding, decryption of
+segment `i` with IV `i`, concatenation — applied to the EncryptedPackage stream the format's
+encryptor produces (8-byte length, 4096-byte segments, last one padded, segment `i` under IV `i`)
+returns the plaintext followed only by the zero padding to the block; cutting to the recorded
+length gives exactly the plaintext. -/
+theorem agile_encrypt_decrypt (c : Cbc) (hc : c.Lawful) (plain : List Nat) :
+    agileDecryptPkg c (agileEncryptPkg c plain) = some (pad16l plain) ∧
+    (pad16l plain).take plain.length = plain := by
+  constructor
+  · unfold agileDecryptPkg agileEncryptPkg
+    have hl8 : (le64n plain.length).length = 8 := by simp [le64n]
+    have hlen : (le64n plain.length ++ agileEncData c plain.length 0 plain).length
+        = (agileEncData c plain.length 0 plain).length + packageOffset := by
+      simp only [List.length_append, hl8, packageOffset]; omega
+    rw [hlen, (agile_segments_partition _).1]
+    simp only []
+    rw [specSegs_eq]
+    have h2 := agileDecData_eq_segs c (le64n plain.length) (agileEncData c plain.length 0 plain) hl8
+      (((agileEncData c plain.length 0 plain).length + (packageEncryptionChunkSize - 1)) / packageEncryptionChunkSize)
+      0 ((agileEncData c plain.length 0 plain).length + 1) (by omega)
+      (by simp only [packageEncryptionChunkSize]; omega)
+    simp only [Nat.mul_zero, List.drop_zero] at h2
+    rw [← h2]
+    exact congrArg some (agileDec_enc c hc plain.length 0 plain (Nat.le_refl _) _ (by omega))
+  · unfold pad16l; simp
+
+/-- *wrong or damaged input returns an error, never a crash* (standard-encryption descriptor): for
+every EncryptionInfo content and every EncryptedPackage length, each slice expression of
+`standardDecrypt` / `standardEncryptionVerifier` (header-size field, header block and its fields,
+verifier blob: salt, encrypted verifier, hash size, encrypted hash `[40:60]` for RC4 / `[40:72]` for
+AES, `encryptedPackageBuf[8:]`) is in range once the guards in front of it have passed — the model's
+panic outcome is unreachable. Relies on the per-algorithm guard table `{RC4: 60, AES: 72}` covering
+the last slice of `standardEncryptionVerifier` (both are regenerated facts). -/
+theorem standard_guards_no_panic (info : List Nat) (pkgLen : Nat) :
+    standardGuards info pkgLen ≠ .panic ∧
+    (∀ alg, verifierEnd alg ≤ verifierMin alg) := by
+  refine ⟨standardGuards_no_panic info pkgLen, ?_⟩
+  intro alg
+  unfold verifierEnd verifierMin
+  split <;> decide
+
 /-- *every password the API accepts … any Unicode text*: the UTF-16LE conversion applied to the
 password before key derivation (BMP code units, surrogate pairs above U+FFFF) is injective on
 Unicode scalar sequences, so two different passwords never feed the same bytes into the hash. -/
 theorem password_encoding_injective (a b : List Char) (h : utf16le a = utf16le b) : a = b :=
   utf16le_injective a b h
+
+/-- *gates access* (what the key derivation is fed): `hashing("sha1", verifier.Salt, passwordBuffer)` and
+the agile `salt ‖ passwordBuffer` hash the salt followed by the UTF-16LE password; for a fixed salt two
+different passwords always give different hash inputs. That different inputs give different keys, and a
+different key no valid package, is the cryptographic assumption of the trusted base (exercised by the
+wrong-password oracles), not a theorem. -/
+theorem derivation_input_injective (salt : List Nat) (a b : List Char)
+    (h : salt ++ utf16le a = salt ++ utf16le b) : a = b :=
+  utf16le_injective a b (List.append_cancel_left h)
+
+/-- the hypotheses of `agile_encrypt_decrypt` are satisfiable -/
+theorem cbc_lawful_exists : ∃ c : Cbc, c.Lawful := ⟨⟨fun _ x => x, fun _ x => x⟩, fun _ _ _ => ⟨rfl, rfl⟩⟩
 
 deriving instance DecidableEq for Except
 
